@@ -83,11 +83,33 @@ def gen_hier(rng, opts=None):
                 if opts.get("extras") and r < 0.14:
                     conns.append([pn, {"k": "noconn"}])
                     continue
-                if opts.get("slices") and r < 0.2:
+                if opts.get("slices") and r < 0.5:
                     big = [s for s in sigs if s["w"] > pw]
+                    same = [s for s in sigs if s["w"] == pw]
+                    rr = rng.random() * (0.45 if opts["slices"] == "full" else 1.0)  # "full": nothing but full-width slices in the design
+                    if opts["slices"] == "full" and not same:
+                        conns.append([pn, {"k": "sig", "n": sig_of_width(pw)}])
+                        continue
+                    if same and rr < 0.45:
+                        # a slice as wide as the signal it is taken from: forward, reversed, or written with explicit bounds
+                        s = rng.choice(same)
+                        idx = rng.choice([{"s": pw - 1, "e": None, "st": -1}, {"s": pw - 1, "e": None, "st": -1}, {"s": 0, "e": pw, "st": None},
+                                          {"s": None, "e": None, "st": None}, {"s": -pw, "e": None, "st": 1}])
+                        conns.append([pn, {"k": "slice", "p": {"k": "sig", "n": s["n"]}, "i": idx}])
+                        continue
+                    if same and rr < 0.6 and pw >= 2:
+                        s = rng.choice(same)
+                        k = rng.randint(1, pw - 1)
+                        parts = [{"k": "slice", "p": {"k": "sig", "n": s["n"]}, "i": {"s": 0, "e": k, "st": None}},
+                                 {"k": "slice", "p": {"k": "sig", "n": s["n"]}, "i": {"s": k, "e": pw, "st": None}}]
+                        if rng.random() < 0.5:
+                            parts.reverse()
+                        conns.append([pn, {"k": "concat", "ps": parts}])
+                        continue
                     if big:
                         s = rng.choice(big)
-                        conns.append([pn, {"k": "slice", "p": {"k": "sig", "n": s["n"]}, "i": {"s": 0, "e": pw, "st": None}}])
+                        a = rng.randint(0, s["w"] - pw)
+                        conns.append([pn, {"k": "slice", "p": {"k": "sig", "n": s["n"]}, "i": {"s": a, "e": a + pw, "st": None}}])
                         continue
                 conns.append([pn, {"k": "sig", "n": sig_of_width(pw)}])
             insts.append({"n": iname, "of": of, "conns": conns})
@@ -116,9 +138,11 @@ def adversarial(rng, design):
     if not holders:
         return None
     m = rng.choice(holders)
+    if by[d["top"]] in holders and rng.random() < 0.6:
+        m = by[d["top"]]  # names are joined from the top: a clash needs the top on one side
     inst = rng.choice([i for i in m["insts"] if i["of"]["k"] == "module"])
     child = by[inst["of"]["name"]]
-    kind = rng.choice(["sig", "sig", "inst", "split", "harmless"])
+    kind = rng.choice(["sig", "sig", "inst", "split", "harmless", "cross", "cross", "cross_inst"])
 
     def rename_sig(mod, old, new):
         for s in mod["sigs"]:
@@ -142,6 +166,13 @@ def adversarial(rng, design):
     elif kind == "inst" and child["insts"] and len(m["insts"]) > 1:
         other = rng.choice([i for i in m["insts"] if i is not inst])
         other["n"] = f"{inst['n']}:{rng.choice(child['insts'])['n']}"
+    elif kind == "cross" and child["insts"] and own_internal:
+        # a net of this module named like the joined path of a leaf (or inner instance) below `inst`
+        rename_sig(m, rng.choice(own_internal), f"{inst['n']}:{rng.choice(child['insts'])['n']}")
+    elif kind == "cross_inst" and internal and len(m["insts"]) > 1:
+        # an instance of this module named like the joined name of an internal net below `inst`
+        other = rng.choice([i for i in m["insts"] if i is not inst])
+        other["n"] = f"{inst['n']}:{rng.choice(internal)}"
     elif kind == "split" and child["insts"]:
         # a/b:c  versus  a:b/c : rename an instance of the child to 'x:y', and add nothing else — collides only if 'a:x' exists
         ci = rng.choice(child["insts"])
@@ -331,7 +362,7 @@ def make_cases(rng, n):
     cases = []
     for k in range(n):
         r = rng.random()
-        d = gen_hier(rng, {"extras": r < 0.25, "slices": 0.25 <= r < 0.35})
+        d = gen_hier(rng, {"extras": r < 0.25, "slices": ("full" if r < 0.35 else "mixed") if 0.25 <= r < 0.45 else None})
         cases.append({"design": d, "style": ("proc", "class", "gen")[k % 3], "stream": "hierarchies"})
         if rng.random() < 0.6 and whole_signal(d):
             a = adversarial(rng, d)
@@ -344,7 +375,7 @@ def run(ctx):
     rep = ctx.rep
     rep.extra["rule"] = (
         "random hierarchies (2-5 modules, depth <= 5, shared children, scalar and bus nets, internal nets at every level, pass-through ports, "
-        "Primitive / ExternalModule leaves at every level; 25% with port references / no-connects, 10% with slices) in 3 construction styles "
+        "Primitive / ExternalModule leaves at every level; 25% with port references / no-connects, 20% with slices / concatenations (sub-ranges, full-width forward and reversed, split-and-swapped)) in 3 construction styles "
         "+ the same with ':' in designer names colliding with joined path names; non-trivial = flatten returned a new module; "
         "distinct = distinct design JSON"
     )
